@@ -130,6 +130,7 @@ def gen_decl(w, rng, small=False):
     A, A2, B, C, P = w.eid[w.A], w.eid[w.A2], w.eid[w.B], w.eid[w.C], w.eid[w.P]
     ents = rng.choice([[A], [A], [A2], [B], [B], [A, B], [C], [B, C], [P], [A2, B]])
     perms = rng.choice([['view'], ['view'], ['edit'], ['view', 'edit'], ['delete'], ['create', 'view']])
+    if rng.random() < 0.04: perms = []      # perm() without a permission name: TypeError, nothing is registered
     groups = rng.choice([[], [], ['g1'], ['g2'], ['g1', 'g2']])
     roles = rng.choice([[], [], [], ['r'], ['self']])
     labels = rng.choice([[], [], ['l']])
